@@ -418,7 +418,7 @@ def _pp():
 
 # producer steps granted at successive pre-emption points (cycled); every pattern is fair (some entry > 0)
 PATTERNS = [[1], [2], [7], [0, 0, 3], [0, 1, 0, 5], [3, 0, 0, 0, 1], [0, 0, 0, 9], [1, 0, 2, 0, 0, 4], [0, 0, 0, 0, 0, 30], [100], [0, 2], [0, 0, 0, 0, 1]]
-FSETS = [[5], [9, 0, 17], [33, 4], [0, 0], [40, 40, 7]]
+FSETS = [[5], [9, 0, 17], [33, 4], [0, 0], [40, 40, 7], [150, 90]]     # the last: more chunks than the queue holds at concurrency 3
 
 
 def snapshot_case(conc, pat, fs, delays, fail):
@@ -432,12 +432,18 @@ def snapshot_case(conc, pat, fs, delays, fail):
             (src / f'f{i}.bin').write_bytes(world.content(0, i, n))
         from vt.harness.gc import users, fresh_repo
         U = users(True)
-        be = rt.MemBackend({'config': U.config}, delays=delays, fail_op=('upload_stream', 1) if fail else None)
+        # fail: 0 none, 1 permanent backend error on the 2nd chunk upload, 2 that upload ends with CancelledError,
+        # 3 the caller cancels the snapshot task while that upload is in flight (wait_for timeout, Ctrl-C)
+        holder = {}
+        be = rt.MemBackend({'config': U.config}, delays=delays, fail_op=('upload_stream', 1) if fail in (1, 2) else None,
+                           fail_exc=asyncio.CancelledError if fail == 2 else None,
+                           hook=('upload_stream', 1, lambda: holder['task'].cancel()) if fail == 3 else None)
         repo = fresh_repo(U, 'A', be, concurrent=conc)
         loop = rt.MiniLoop(budget=200000)
         snap = _coop_snapshot()
 
         async def run():
+            holder['task'] = asyncio.current_task()
             return await snap(repo, paths=[src])
         # the producer also advances whenever the loop is about to run a step (another thread runs whenever it likes)
         orig_step = loop._step
@@ -461,6 +467,10 @@ def snapshot_case(conc, pat, fs, delays, fail):
             res = None
             if not fail:
                 return False, 'spurious backend fault'
+        except asyncio.CancelledError:
+            res = None
+            if fail not in (2, 3):
+                return False, 'spurious cancellation'
         except Exception as e:
             return False, f'snapshot raised {e!r} (hooks={_SCHED["hooks"]})'
         # let calls that were still in flight when the command returned/raised run to completion
@@ -523,13 +533,13 @@ def snapshot_case(conc, pat, fs, delays, fail):
 
 def t5_snapshot(k: int) -> bool:
     """
-    pre: shard(3 * 12 * 5 * 5 * 2)[0] <= k < shard(3 * 12 * 5 * 5 * 2)[1]
+    pre: shard(3 * 12 * 6 * 5 * 4)[0] <= k < shard(3 * 12 * 6 * 5 * 4)[1]
     post: _
     """
-    ci, pat, fs, di, fail = digits(k, [3, 12, 5, 5, 2])
+    ci, pat, fs, di, fail = digits(k, [3, 12, 6, 5, 4])
     with NoTracing():
         delays = [[0], [0, 1], [2, 0, 1], [0, 3, 0, 1], [1, 1, 0]][di]
-        ok, msg = snapshot_case([1, 2, 3][ci], pat, fs, delays, bool(fail))
+        ok, msg = snapshot_case([1, 2, 3][ci], pat, fs, delays, fail)
         tick('t5', [[1, 2, 3][ci], PATTERNS[pat], FSETS[fs], delays, fail])
         if not ok:
             _say([1, 2, 3][ci], PATTERNS[pat], FSETS[fs], delays, fail, msg)
